@@ -1,5 +1,5 @@
 (* C20: layers are transparent, honour Tower readiness, listeners only observe.
-   Three small executable models. No proofs here.
+   Executable models. No proofs here.
 
    (A) Readiness protocol. A Tower service instance may be called only after poll_ready on
        THAT instance returned Ready since its previous call; a clone starts not ready.
@@ -17,9 +17,14 @@
                    behind, each preceded by poll_ready until Ready
          Reconnect k  Direct for the first call; the future owns a clone made at call time;
                    k retries on that clone, each preceded by poll_ready until Ready
+       Clients: [client] (one long-lived handle, one request after the other: mode 1) and
+       [run_cops] (any program of poll / call / clone operations over any number of handles,
+       the interpreter refusing a call on a handle it has not polled ready: mode 3).
    (B) Transparency: a layer is a transformer of the wrapped service's behaviour; a stack is
-       the composition.
-   (C) Listeners: emit runs every listener on every event whatever the others do. *)
+       the composition; the per-layer semantics are instantiated from the per-layer models in
+       Model/LayerSem.v.
+   (C) Listeners: a layer run emits events through [emit], which runs every listener on every
+       event and contains their panics; the outcome of the run is COMPUTED through it. *)
 From TR Require Import Lib.Base.
 
 (* ------------------------------------------------------------------------- *)
@@ -28,13 +33,17 @@ Inductive disc := Swap | Direct | Retry (k : nat) | Hedge (k : nat) | Reconnect 
 
 Inductive rres := RReady | RPending | RErr.
 
+(* how a call ended as far as readiness is concerned: normally (whatever the wrapped
+   service's own outcome), with a readiness error raised inside the layer (or further down),
+   or never (the layer polls an instance that stays Pending for ever) *)
+Inductive cres := COk | CRdy | CHang.
+
 Inductive op :=
 | OClone (x : nat)            (* clone instance x; the answer carries the new instance *)
 | OPoll (x : nat)             (* poll_ready on instance x *)
 | OCall (x : nat) (req : Z).  (* call on instance x *)
 
-Inductive ans := AId (x : nat) | ARes (r : rres) | ADone (err : bool).
-  (* ADone true = the call ended with a readiness error raised inside the layer *)
+Inductive ans := AId (x : nat) | ARes (r : rres) | ADone (c : cres).
 
 (* what the wrapped service sees *)
 Inductive lev := LPoll (x : nat) (r : rres) | LCall (x : nat) (req : Z) (ok : bool) | LClone (x y : nat).
@@ -42,7 +51,11 @@ Inductive lev := LPoll (x : nat) (r : rres) | LCall (x : nat) (req : Z) (ok : bo
 Record base := mkBase {
   ready : nat -> bool;
   fresh : nat;                (* next instance id *)
-  oracle : list rres;         (* scripted answers to the coming polls (exhausted = Ready) *)
+  oracle : list rres;         (* shared oracle: answers to the coming polls in order (exhausted = Ready) *)
+  pmode : bool;               (* true: per-instance oracle [porc] instead of the shared one *)
+  porc : list (list rres);    (* per-instance oracle: the c-th list holds the answers still to be given to
+                                 the polls of the instance that was the c-th to be used (poll or call) *)
+  seen : list nat;            (* instances in order of first use *)
   blog : list lev;            (* newest first *)
   violations : nat
 }.
@@ -52,26 +65,49 @@ Definition updb (f : nat -> bool) (i : nat) (v : bool) : nat -> bool :=
 Definition updn (f : nat -> nat) (i : nat) (v : nat) : nat -> nat :=
   fun j => if Nat.eqb j i then v else f j.
 
+(* position of x in l (length l when absent) *)
+Fixpoint pos_of (x : nat) (l : list nat) : nat :=
+  match l with
+  | [] => O
+  | y :: r => if Nat.eqb x y then O else S (pos_of x r)
+  end.
+Definition note (x : nat) (l : list nat) : list nat :=
+  if existsb (Nat.eqb x) l then l else l ++ [x].
+
+(* consume the head of the c-th list *)
+Fixpoint drop_at (c : nat) (l : list (list rres)) : list (list rres) :=
+  match l with
+  | [] => []
+  | h :: r => match c with O => tl h :: r | S c' => h :: drop_at c' r end
+  end.
+
+Definition head_or_ready (l : list rres) : rres := match l with r :: _ => r | [] => RReady end.
+
+(* the wrapped service's answer to the next poll_ready on instance x *)
+Definition answer (b : base) (x : nat) : rres :=
+  if pmode b then head_or_ready (nth (pos_of x (seen b)) (porc b) [])
+  else head_or_ready (oracle b).
+
 Definition base_exec (b : base) (o : op) : base * ans :=
   match o with
   | OClone x =>
     let y := fresh b in
-    (mkBase (updb (ready b) y false) (S y) (oracle b) (LClone x y :: blog b) (violations b), AId y)
+    (mkBase (updb (ready b) y false) (S y) (oracle b) (pmode b) (porc b) (seen b)
+            (LClone x y :: blog b) (violations b), AId y)
   | OPoll x =>
-    let r := match oracle b with r :: _ => r | [] => RReady end in
+    let r := answer b x in
     (mkBase (match r with RReady => updb (ready b) x true | _ => ready b end) (fresh b)
-            (tl (oracle b)) (LPoll x r :: blog b) (violations b), ARes r)
+            (tl (oracle b)) (pmode b) (drop_at (pos_of x (seen b)) (porc b)) (note x (seen b))
+            (LPoll x r :: blog b) (violations b), ARes r)
   | OCall x req =>
     let ok := ready b x in
-    (mkBase (updb (ready b) x false) (fresh b) (oracle b) (LCall x req ok :: blog b)
-            (if ok then violations b else S (violations b)), ADone false)
+    (mkBase (updb (ready b) x false) (fresh b) (oracle b) (pmode b) (porc b) (note x (seen b))
+            (LCall x req ok :: blog b)
+            (if ok then violations b else S (violations b)), ADone COk)
   end.
 
 (* one layer's bookkeeping: which inner instance each of its instances wraps *)
 Record lstate := mkL { imap : nat -> nat; lfresh : nat }.
-
-(* a stack state: one lstate per layer (outermost first) and the wrapped service *)
-Record sstate := mkS { layers : list lstate; bottom : base }.
 
 Section Exec.
   (* [sub] executes an operation on the rest of the stack *)
@@ -91,19 +127,21 @@ Section Exec.
     end.
 
   (* k further attempts on instance y, each after readiness *)
-  Fixpoint attempts (fuel : nat) (k : nat) (t : T) (y : nat) (req : Z) : T * bool :=
+  Fixpoint attempts (fuel : nat) (k : nat) (t : T) (y : nat) (req : Z) : T * cres :=
     match k with
-    | O => (t, false)
+    | O => (t, COk)
     | S k' =>
       let '(t1, r) := poll_until fuel t y in
       match r with
       | RReady =>
         let '(t2, a) := sub t1 (OCall y req) in
         match a with
-        | ADone true => (t2, true)    (* a readiness error raised further down ends the request *)
+        | ADone CRdy => (t2, CRdy)    (* a readiness error raised further down ends the request *)
+        | ADone CHang => (t2, CHang)
         | _ => attempts fuel k' t2 y req
         end
-      | _ => (t1, true)       (* readiness error (or never ready): the request ends *)
+      | RErr => (t1, CRdy)           (* readiness error: the request ends with it *)
+      | RPending => (t1, CHang)      (* never ready (fuel exhausted): the request never completes *)
       end
     end.
 
@@ -124,6 +162,8 @@ Section Exec.
       end
     end.
 
+  Definition cres_of (a : ans) : cres := match a with ADone c => c | _ => COk end.
+
   Definition layer_exec (fuel : nat) (d : disc) (l : lstate) (t : T) (o : op) : lstate * T * ans :=
     match o with
     | OClone x =>
@@ -137,33 +177,35 @@ Section Exec.
     | OCall x req =>
       let y := imap l x in
       match d with
-      | Direct => let '(t1, a) := sub t (OCall y req) in (l, t1, a)
+      | Direct => let '(t1, a) := sub t (OCall y req) in (l, t1, ADone (cres_of a))
       | Swap | Retry _ | Hedge _ =>
         let '(t1, a) := sub t (OClone y) in
         match a with
         | AId y' =>
           let '(t2, a0) := sub t1 (OCall y req) in
           let l' := mkL (updn (imap l) x y') (lfresh l) in
-          let failed := match a0 with ADone true => true | _ => false end in
           match d with
           | Retry k =>
             (* a readiness error raised further down is not retried *)
-            if failed then (l', t2, ADone true)
-            else let '(t3, e) := attempts fuel k t2 y req in (l', t3, ADone e)
-          | Hedge k => (l', hedges fuel k t2 y' req, ADone false)
-          | _ => (l', t2, ADone failed)
+            match cres_of a0 with
+            | COk => let '(t3, e) := attempts fuel k t2 y req in (l', t3, ADone e)
+            | c => (l', t2, ADone c)
+            end
+          | Hedge k => (l', hedges fuel k t2 y' req, ADone COk)
+          | _ => (l', t2, ADone (cres_of a0))
           end
         | _ => (l, t1, a)
         end
       | Reconnect k =>
         let '(t1, a0) := sub t (OCall y req) in
-        let failed := match a0 with ADone true => true | _ => false end in
         let '(t2, a) := sub t1 (OClone y) in
         match a with
         | AId z =>
           (* a readiness error raised further down is not a connection failure: no retry *)
-          if failed then (l, t2, ADone true)
-          else let '(t3, e) := attempts fuel k t2 z req in (l, t3, ADone e)
+          match cres_of a0 with
+          | COk => let '(t3, e) := attempts fuel k t2 z req in (l, t3, ADone e)
+          | c => (l, t2, ADone c)
+          end
         | _ => (l, t2, a)
         end
       end
@@ -183,75 +225,211 @@ Fixpoint exec (fuel : nat) (ds : list disc) (ls : list lstate) (b : base) (o : o
   | _, _ => let '(b', a) := base_exec b o in (ls, b', a)
   end.
 
+Definition execp (fuel : nat) (ds : list disc) (t : list lstate * base) (o : op)
+  : (list lstate * base) * ans :=
+  let '(ls2, b2, a) := exec fuel ds (fst t) (snd t) o in ((ls2, b2), a).
+
 Definition init_l : lstate := mkL (fun _ => O) 1.   (* instance 0 wraps inner instance 0 *)
-Definition init_base (orc : list rres) : base := mkBase (fun _ => false) 1 orc [] 0.
+Definition init_base (orc : list rres) : base :=
+  mkBase (fun _ => false) 1 orc false [] [] [] 0.
+Definition init_base_p (po : list (list rres)) : base :=
+  mkBase (fun _ => false) 1 [] true po [] [] 0.
+Definition init_stack (ds : list disc) (b : base) : list lstate * base :=
+  (map (fun _ => init_l) ds, b).
+
+Definition code_of_rres (r : rres) : Z := match r with RReady => 0 | RErr => 1 | RPending => 3 end.
+Definition code_of_ans (a : ans) : Z := match a with ADone CRdy => 2 | ADone CHang => 9 | _ => 0 end.
 
 (* a well-behaved client of the top layer: for each request, poll instance 0 until Ready
-   (give up on a readiness error), then call it *)
-Fixpoint client (fuel : nat) (ds : list disc) (ls : list lstate) (b : base) (reqs : list Z)
-  : list lstate * base * list Z :=
+   (give up on a readiness error or after [cf] Pending answers), then call it *)
+Fixpoint client (cf fuel : nat) (ds : list disc) (t : list lstate * base) (reqs : list Z)
+  : (list lstate * base) * list Z :=
   match reqs with
-  | [] => (ls, b, [])
+  | [] => (t, [])
   | q :: rest =>
-    let sub := fun (t : list lstate * base) (o' : op) =>
-                 let '(ls2, b2, a) := exec fuel ds (fst t) (snd t) o' in ((ls2, b2), a) in
-    let '(t1, r) := poll_until sub fuel (ls, b) 0%nat in
+    let '(t1, r) := poll_until (execp fuel ds) cf t 0%nat in
     match r with
     | RReady =>
-      let '(t2, a) := sub t1 (OCall 0%nat q) in
-      let '(ls3, b3, out) := client fuel ds (fst t2) (snd t2) rest in
-      (ls3, b3, (match a with ADone true => 2 | _ => 0 end) :: out)
-    | RErr =>
-      let '(ls3, b3, out) := client fuel ds (fst t1) (snd t1) rest in (ls3, b3, 1 :: out)
-    | RPending =>
-      let '(ls3, b3, out) := client fuel ds (fst t1) (snd t1) rest in (ls3, b3, 3 :: out)
+      let '(t2, a) := execp fuel ds t1 (OCall 0%nat q) in
+      let '(t3, out) := client cf fuel ds t2 rest in
+      (t3, code_of_ans a :: out)
+    | _ =>
+      let '(t3, out) := client cf fuel ds t1 rest in (t3, code_of_rres r :: out)
     end
   end.
 
+(* any client program over any number of handles (clones of the top of the stack). The
+   interpreter keeps, per handle, whether its last poll_ready answered Ready and no call has
+   been made since; it refuses (code 8) a call on a handle that is not in that state, and any
+   operation on a handle that does not exist: every program is thereby contract-respecting. *)
+Inductive cop :=
+| CPoll (h : nat)     (* poll handle h until Ready / Err / [cf] Pending answers *)
+| CCall (h : nat)     (* the next request (numbered 1, 2, ...) on handle h *)
+| CClone (h : nat)    (* a new handle: a clone of handle h *)
+| CGate (h : nat)     (* one poll_ready on a handle whose layer's gate is closed: Pending,
+                         the wrapped service is not touched *)
+| CNop.               (* harness-only events (release of a held call, driving futures) *)
+
+Record cst := mkC {
+  hs : list nat;            (* handle number -> top-level instance *)
+  crdy : nat -> bool;       (* top-level instance polled Ready since its last call *)
+  outs : list Z;            (* outcome codes of the requests issued so far, newest first *)
+  nreq : nat
+}.
+
+Definition init_c : cst := mkC [O] (fun _ => false) [] 0.
+
+Section Prog.
+  Context {T : Type} (sub : T -> op -> T * ans) (cf : nat).
+
+  Definition is_rdy (r : rres) : bool := match r with RReady => true | _ => false end.
+
+  Definition cstep (p : T * cst) (o : cop) : (T * cst) * Z :=
+    let t := fst p in
+    let c := snd p in
+    match o with
+    | CPoll h =>
+      match nth_error (hs c) h with
+      | Some x =>
+        let '(t1, r) := poll_until sub cf t x in
+        ((t1, mkC (hs c) (updb (crdy c) x (is_rdy r)) (outs c) (nreq c)), code_of_rres r)
+      | None => (p, 8)
+      end
+    | CCall h =>
+      match nth_error (hs c) h with
+      | Some x =>
+        if crdy c x then
+          let '(t1, a) := sub t (OCall x (Z.of_nat (S (nreq c)))) in
+          ((t1, mkC (hs c) (updb (crdy c) x false) (code_of_ans a :: outs c) (S (nreq c))), 0)
+        else (p, 8)
+      | None => (p, 8)
+      end
+    | CClone h =>
+      match nth_error (hs c) h with
+      | Some x =>
+        let '(t1, a) := sub t (OClone x) in
+        match a with
+        | AId x' => ((t1, mkC (hs c ++ [x']) (updb (crdy c) x' false) (outs c) (nreq c)), 0)
+        | _ => ((t1, c), 8)
+        end
+      | None => (p, 8)
+      end
+    | CGate h => match nth_error (hs c) h with Some _ => (p, 3) | None => (p, 8) end
+    | CNop => (p, 0)
+    end.
+
+  Fixpoint run_cops (p : T * cst) (os : list cop) : (T * cst) * list Z :=
+    match os with
+    | [] => (p, [])
+    | o :: rest =>
+      let '(p1, z) := cstep p o in
+      let '(p2, zs) := run_cops p1 rest in (p2, z :: zs)
+    end.
+End Prog.
+
 (* ------------------------------------------------------------------------- *)
 (* (B) transparency *)
-Inductive outcome := OutOk (v : Z) | OutErr (e : Z).
-Record behaviour := { calls : list Z; result : outcome }.
-Definition service := Z -> behaviour.
-Definition layer_sem := service -> service.
+Section Transp.
+  (* E: errors *)
+  Context {E : Type}.
+  Inductive outcome := OutOk (v : Z) | OutErr (e : E).
+  Record behaviour := mkBeh { calls : list Z; result : outcome }.
+  Definition service := Z -> behaviour.
+  Definition layer_sem := service -> service.
 
-(* a layer whose protective condition is not triggered forwards the request once and
-   returns the inner result unchanged *)
-Definition transparent (L : layer_sem) : Prop := forall inner req, L inner req = inner req.
+  Definition wrap_out (w : E -> E) (o : outcome) : outcome :=
+    match o with OutOk v => OutOk v | OutErr e => OutErr (w e) end.
 
-Definition stack_sem (stack : list layer_sem) (inner : service) : service :=
-  fold_right (fun L s => L s) inner stack.
+  (* a layer whose protective condition is not triggered: whatever the wrapped service is, the
+     calls that reach the bottom are exactly those of ONE call of the wrapped service with the
+     request unchanged, and the result is that call's result, an error being wrapped by the
+     layer's pass-through wrapper [w] and nothing else *)
+  Definition passes (w : E -> E) (L : layer_sem) : Prop := forall inner req,
+    calls (L inner req) = calls (inner req) /\
+    result (L inner req) = wrap_out w (result (inner req)).
 
-Definition pass_through : layer_sem := fun inner req => inner req.
+  Definition stack_sem (stack : list layer_sem) (inner : service) : service :=
+    fold_right (fun L s => L s) inner stack.
+
+  (* the composition of the pass-through wrappers, outermost first *)
+  Definition wraps (ws : list (E -> E)) (e : E) : E := fold_right (fun w x => w x) e ws.
+
+  Definition pass_through (w : E -> E) : layer_sem :=
+    fun inner req => mkBeh (calls (inner req)) (wrap_out w (result (inner req))).
+End Transp.
+Arguments outcome : clear implicits.
+Arguments behaviour : clear implicits.
+Arguments service : clear implicits.
+Arguments layer_sem : clear implicits.
 
 (* ------------------------------------------------------------------------- *)
-(* (C) listeners *)
-Inductive lresult := Returns | Panics.
-Definition listener := Z -> lresult.       (* reaction to an event *)
+(* (C) listeners.
+   A listener reacts to an event by returning or by panicking. [notify] is ONE listener
+   invocation as the layers make it: through EventListeners::emit, i.e. under catch_unwind
+   ([guarded] = true), or bare ([guarded] = false: reconnect's on_state_change / on_reconnect
+   callbacks, compiled only with that crate's `tracing` feature). A panic that is not caught
+   unwinds through the rest of the emit loop and through the call. *)
+Inductive lresult := Returns | Panics | Skipped.
+  (* Skipped: the listener is not registered for this kind of event (reconnect has one callback per kind) *)
+Definition listener := Z -> lresult.       (* reaction to an event (kind) *)
 
-(* EventListeners::emit: every listener is run, panics are caught; returns who was run *)
-Fixpoint emit (ls : list listener) (ev : Z) : list lresult :=
+(* run the listeners on one event: what each did, and whether a panic escaped *)
+Fixpoint emit_g (guarded : bool) (ls : list listener) (ev : Z) : list lresult * bool :=
   match ls with
-  | [] => []
-  | l :: rest => l ev :: emit rest ev
+  | [] => ([], false)
+  | l :: rest =>
+    match l ev with
+    | Panics =>
+      if guarded then let '(rs, esc) := emit_g guarded rest ev in (Panics :: rs, esc)
+      else ([Panics], true)
+    | r => let '(rs, esc) := emit_g guarded rest ev in (r :: rs, esc)
+    end
   end.
 
-(* a layer's run as a function of its listener list: the events it emits and its outcome;
-   [notify] is the only way the layer interacts with listeners *)
-Definition run_with_listeners (events : list Z) (out : outcome) (ls : list listener)
-  : outcome * list (list lresult) :=
-  (out, map (emit ls) events).
+(* EventListeners::emit *)
+Definition emit (ls : list listener) (ev : Z) : list lresult := fst (emit_g true ls ev).
+
+(* how a call ends *)
+Inductive final := FOut (kind payload : Z) | FPanic.
+
+(* a layer's call path as a list of steps in program order: emit an event / fix the outcome
+   (the inner call returned); the run stops at the first escaped panic *)
+Inductive lstep := SEmit (ev : Z) | SOut (kind payload : Z).
+
+Fixpoint run_steps (guarded : bool) (ls : list listener) (steps : list lstep)
+         (cur : final) (acc : list (Z * list lresult)) : final * list (Z * list lresult) :=
+  match steps with
+  | [] => (cur, rev acc)
+  | SOut k p :: rest => run_steps guarded ls rest (FOut k p) acc
+  | SEmit ev :: rest =>
+    let '(rs, esc) := emit_g guarded ls ev in
+    if esc then (FPanic, rev ((ev, rs) :: acc))
+    else run_steps guarded ls rest cur ((ev, rs) :: acc)
+  end.
+
+(* how often listener i was invoked with an event of kind ev *)
+Definition invoked (r : option lresult) : bool :=
+  match r with Some Returns | Some Panics => true | _ => false end.
+Definition count_kind (i : nat) (ev : Z) (deliveries : list (Z * list lresult)) : Z :=
+  Z.of_nat (length (filter (fun d => andb (fst d =? ev) (invoked (nth_error (snd d) i))) deliveries)).
 
 (* ------------------------------------------------------------------------- *)
-(* script interface
-   mode 1 (protocol): [1; n; disc codes (n entries, outermost first: 0 Swap 1 Direct 2 Retry 3 Hedge
-                       4 Reconnect); k (extra attempts for every Retry/Hedge/Reconnect layer);
-                       nreq; oracle entries (0 Ready 1 Pending 2 Err)...]
+(* script interface, protocol modes
+   mode 1: [1; n; disc codes (n entries, outermost first: 0 Swap 1 Direct 2 Retry 3 Hedge
+            4 Reconnect); k (extra attempts for every Retry/Hedge/Reconnect layer);
+            nreq; shared oracle entries (0 Ready 1 Pending 2 Err)...]
        trace: per request a code (0 called, 1 readiness error at poll_ready, 2 readiness error
-              inside the call, 3 never ready), then the wrapped service's log with instances
-              renamed by first use in a poll or call: [1; inst; r] poll, [2; inst; ok] call,
-              then [violations].
-   mode 0 (transparency) and mode 2 (listeners) have constant models: see below. *)
+              inside the call, 3 never ready, 9 never completed), then the wrapped service's log
+              with instances renamed by first use in a poll or call: [1; inst; r; 0] poll,
+              [2; inst; was-ready; request] call, then [violations].
+   mode 3: [3; n; disc codes; k; nops; (opcode; a; b) * nops; per-instance oracle: the entries of
+            instance 0, -1, the entries of instance 1, -1, ...]
+            opcodes: 0 poll handle a / 1 call on handle a (b: harness-only hold flag) /
+            2 clone handle a / 4 gate-closed poll of handle a / 5 call on handle a, future left
+            un-polled (harness) / anything else: harness-only event
+       trace: one code per operation (poll: 0 ready 1 readiness error 3 never ready; call, clone:
+              0 done; 8 refused; gate: 3; others 0), then one outcome code per issued request
+              (0 / 2 / 9), then the log and [violations] as in mode 1. *)
 Definition disc_of (code : Z) (k : nat) : disc :=
   if code =? 0 then Swap else if code =? 1 then Direct else
   if code =? 2 then Retry k else if code =? 3 then Hedge k else Reconnect k.
@@ -272,15 +450,18 @@ Fixpoint canon (log : list lev) (seen : list nat) : list Z :=
   | LClone _ _ :: rest => canon rest seen
   | LPoll x r :: rest =>
     match index_of x seen 0 with
-    | Some i => [1; i; rres_code r] ++ canon rest seen
-    | None => [1; Z.of_nat (length seen); rres_code r] ++ canon rest (seen ++ [x])
+    | Some i => [1; i; rres_code r; 0] ++ canon rest seen
+    | None => [1; Z.of_nat (length seen); rres_code r; 0] ++ canon rest (seen ++ [x])
     end
-  | LCall x _ ok :: rest =>
+  | LCall x q ok :: rest =>
     match index_of x seen 0 with
-    | Some i => [2; i; b2z ok] ++ canon rest seen
-    | None => [2; Z.of_nat (length seen); b2z ok] ++ canon rest (seen ++ [x])
+    | Some i => [2; i; b2z ok; q] ++ canon rest seen
+    | None => [2; Z.of_nat (length seen); b2z ok; q] ++ canon rest (seen ++ [x])
     end
   end.
+
+(* the client's patience: Pending answers it accepts at one poll_ready before giving up *)
+Definition CF : nat := 8.
 
 Definition run_protocol (sc : list Z) : list Z :=
   let n := Z.to_nat (zn sc 1) in
@@ -290,31 +471,31 @@ Definition run_protocol (sc : list Z) : list Z :=
   let orc := map rres_of (skipn (4 + n) sc) in
   let ds := map (fun c => disc_of c k) codes in
   let reqs := map Z.of_nat (seq 1 nreq) in
-  let '(_, b, out) := client 8 ds (map (fun _ => init_l) ds) (init_base orc) reqs in
-  out ++ canon (rev (blog b)) [] ++ [Z.of_nat (violations b)].
+  (* inside a call a layer polls for as long as it takes: more fuel than Pending answers *)
+  let '(t, out) := client CF (S (length orc)) ds (init_stack ds (init_base orc)) reqs in
+  out ++ canon (rev (blog (snd t))) [] ++ [Z.of_nat (violations (snd t))].
 
-(* mode 0: [0; n; layer codes...; inner kind; nreq; (req; okind; oval)*] ->
-   per request [1; req; okind; oval]: exactly one inner call with the original request and the
-   inner outcome unchanged *)
-Fixpoint run_transparent (l : list (Z * Z * Z)) : list Z :=
+Fixpoint split_segs (l : list Z) (cur : list Z) : list (list Z) :=
   match l with
-  | [] => []
-  | (req, ok, v) :: rest =>
-    let b := stack_sem [pass_through] (fun q => {| calls := [q]; result := if ok =? 0 then OutOk v else OutErr v |}) req in
-    [Z.of_nat (length (calls b)); hd 0 (calls b);
-     match result b with OutOk _ => 0 | OutErr _ => 1 end;
-     match result b with OutOk x => x | OutErr x => x end] ++ run_transparent rest
+  | [] => match cur with [] => [] | _ => [rev cur] end
+  | x :: r => if x =? -1 then rev cur :: split_segs r [] else split_segs r (x :: cur)
   end.
 
-(* mode 2: [2; layer; nlisteners; panic mask; nreq; ...] -> per request
-   [outcome equals the run without panicking listeners; every listener saw every event] *)
-Definition run_listeners (sc : list Z) : list Z :=
-  let nreq := Z.to_nat (zn sc 4) in
-  concat (map (fun _ => [1; 1]) (seq 0 nreq)).
+Definition cop_of (t : Z * Z * Z) : cop :=
+  let '(o, a, _) := t in
+  let h := Z.to_nat a in
+  if o =? 0 then CPoll h else if o =? 1 then CCall h else if o =? 2 then CClone h
+  else if o =? 4 then CGate h else if o =? 5 then CCall h else CNop.
 
-Definition run_script (sc : list Z) : list Z :=
-  if zn sc 0 =? 1 then run_protocol sc
-  else if zn sc 0 =? 0 then
-    let n := Z.to_nat (zn sc 1) in
-    run_transparent (chunk3 (skipn (4 + n) sc))
-  else run_listeners sc.
+Definition run_program (sc : list Z) : list Z :=
+  let n := Z.to_nat (zn sc 1) in
+  let codes := firstn n (skipn 2 sc) in
+  let k := Z.to_nat (zn sc (2 + n)) in
+  let nops := Z.to_nat (zn sc (3 + n)) in
+  let ops := map cop_of (chunk3 (firstn (3 * nops) (skipn (4 + n) sc))) in
+  let po := map (map rres_of) (split_segs (skipn (4 + n + 3 * nops) sc) []) in
+  let ds := map (fun c => disc_of c k) codes in
+  let fuel := S (length (concat po)) in
+  let '(p, zs) := run_cops (execp fuel ds) CF (init_stack ds (init_base_p po), init_c) ops in
+  let b := snd (fst p) in
+  zs ++ rev (outs (snd p)) ++ canon (rev (blog b)) [] ++ [Z.of_nat (violations b)].
